@@ -10,6 +10,7 @@ spec -> code (every transition of the exported state graphs, covered by walks, p
 (seeded random drivers, traces validated by TLC).
 """
 import copy
+import gc
 import random
 from concurrent.futures import ThreadPoolExecutor
 
@@ -49,39 +50,67 @@ def prep_ports(behs):
 
 
 # --------------------------------------------------------------------------
-# TLC runs
+# TLC runs (all started up front, a few at a time; results are consumed in a fixed order)
 
-def model_check(ctx, jobs):
-  """jobs: [(module, cfg, actions)] - run concurrently (each TLC gets a share of the cores)."""
-  def one(job):
-    module, cfg, actions = job
-    return job, tlc.run("ports", module, cfg, tag=ctx.pid, workers=4, timeout=1500)
-  with ThreadPoolExecutor(max_workers=4) as ex:
-    results = list(ex.map(one, jobs))
-  for (module, cfg, actions), r in results:
-    if r.violated:
-      raise tlc.TLCError("%s violates its own property %s in %s:\n%s" %
-                         (module, r.violated, cfg, r.error_trace[:3000]))
-    tlc.require_coverage(r, actions, cfg)
-    ctx.add_model("%s %s" % (module[2:], cfg), r)
+def _tlc_mc(ctx, module, cfg, actions):
+  r = tlc.run("ports", module, cfg, tag=ctx.pid, workers=4, timeout=1500)
+  if r.violated:
+    raise tlc.TLCError("%s violates its own property %s in %s:\n%s" %
+                       (module, r.violated, cfg, r.error_trace[:3000]))
+  tlc.require_coverage(r, actions, cfg)
+  return r
 
 
-def export_graphs(ctx, jobs):
-  """jobs: [(module, cfg)] -> {cfg: walks}; TLC exports run concurrently."""
-  def one(job):
-    module, cfg = job
-    r = tlc.run("ports", module, cfg, workers=1, coverage=False, tag=ctx.pid, timeout=1500)
-    edges = r.tagged("G")
-    if not edges:
-      raise tlc.TLCError("no transitions exported by " + cfg)
-    walks, info = c17_tour.tours(edges, maxlen=40)
-    return cfg, walks, info
-  with ThreadPoolExecutor(max_workers=4) as ex:
-    out = list(ex.map(one, jobs))
-  return out
+def _tlc_graph(ctx, module, cfg, actions):
+  """One TLC run model-checks the spec (invariants, action properties, per-action coverage =
+  vacuity guard) AND prints its state graph, one line per transition (ACTION_CONSTRAINT ExportG)."""
+  r = tlc.run("ports", module, cfg, workers=1, coverage=True, tag=ctx.pid, timeout=1500)
+  if r.violated:
+    raise tlc.TLCError("%s violates its own property %s in %s:\n%s" %
+                       (module, r.violated, cfg, r.error_trace[:3000]))
+  tlc.require_coverage(r, actions, cfg)
+  r.stdout = ""
+  edges = r.tagged("G")
+  r.prints = []
+  if not edges or len(edges) != r.generated - 1:
+    raise tlc.TLCError("%s: %d transitions generated but %d exported" % (cfg, r.generated - 1, len(edges)))
+  walks, info = c17_tour.tours(edges, maxlen=40)
+  del edges
+  return r, walks, info
 
 
-def replay_variants(ctx, adapter, walks, params, name, all_variants=False, nontrivial=None):
+def _tlc_sim(ctx, module, cfg, num, depth, seed_off):
+  r = tlc.run("ports", module, cfg, workers=1, coverage=False, simulate=dict(num=num),
+              depth=depth + 1, seed=ctx.seed + 17 + seed_off, tag=ctx.pid, timeout=1500)
+  behs = r.tagged("H")
+  if len(behs) < num // 2:
+    raise tlc.TLCError("simulation %s exported only %d behaviours" % (cfg, len(behs)))
+  return behs
+
+
+class Jobs(object):
+  def __init__(self, ctx, workers):
+    self.ctx = ctx
+    self.ex = ThreadPoolExecutor(max_workers=workers)
+    self.fut = {}
+
+  def mc(self, module, cfg, actions):
+    self.fut[cfg] = self.ex.submit(_tlc_mc, self.ctx, module, cfg, actions)
+
+  def graph(self, module, cfg, actions):
+    self.fut[cfg] = self.ex.submit(_tlc_graph, self.ctx, module, cfg, actions)
+
+  def sim(self, module, cfg, num, depth, seed_off=0):
+    self.fut[cfg] = self.ex.submit(_tlc_sim, self.ctx, module, cfg, num, depth, seed_off)
+
+  def get(self, cfg):
+    return self.fut.pop(cfg).result()
+
+  def close(self):
+    self.ex.shutdown(wait=True, cancel_futures=True)
+
+
+def replay_variants(ctx, adapter, walks, params, name, all_variants=False, nontrivial=None, pick=None):
   """walk i is replayed under concretisation variant i mod 3 (thorough: under all three)."""
   total = dict(ok=0, diverted=0, mismatch=0)
   okb = None
@@ -90,27 +119,22 @@ def replay_variants(ctx, adapter, walks, params, name, all_variants=False, nontr
     if not sub:
       continue
     p = dict(params, variant=v)
-    st = core.replay(ctx, adapter, sub, params=p, chunk=max(5, min(60, len(sub) // 48 or 1)),
-                     nontrivial=nontrivial or (lambda b: len(b) > 1))
+    gc.freeze()        # forked replay workers must not touch (and so copy) the parent's heap
+    try:
+      st = core.replay(ctx, adapter, sub, params=p, chunk=max(5, min(60, len(sub) // 48 or 1)),
+                       nontrivial=nontrivial or (lambda b: len(b) > 1))
+    finally:
+      gc.unfreeze()
     for k in total:
       total[k] += st[k]
-    if okb is None and core.replay.last_ok:
-      okb = (max((sub[i] for i in core.replay.last_ok), key=len), p)
+    if okb is None:          # a conforming behaviour for the negative control
+      cands = [sub[i] for i in core.replay.last_ok if pick is None or pick(sub[i])]
+      if cands:
+        okb = (max(cands, key=len), p)
   ctx.notes["replay " + name] = dict(behaviours=total["ok"] + total["diverted"] + total["mismatch"],
                                      steps=sum(len(w) for w in walks) * (NVARIANTS if all_variants else 1),
                                      **total)
   return okb
-
-
-def simulate(ctx, module, cfg, adapter, params, num, depth, prep=None, seed_off=0):
-  r = tlc.run("ports", module, cfg, workers=1, coverage=False, simulate=dict(num=num),
-              depth=depth + 1, seed=ctx.seed + 17 + seed_off, tag=ctx.pid, timeout=1500)
-  behs = r.tagged("H")
-  if len(behs) < num // 2:
-    raise tlc.TLCError("simulation %s exported only %d behaviours" % (cfg, len(behs)))
-  if prep:
-    prep(behs)
-  replay_variants(ctx, adapter, behs, params, cfg)
 
 
 def negative_control_replay(ctx, adapter, okb, corrupt):
@@ -158,7 +182,11 @@ def corrupt_stats(beh):
 # code -> spec
 
 def validate_traces(ctx, module, cfg, driver, items, corrupt, name, describe):
-  traces = core.run_driver(driver, items)
+  gc.freeze()
+  try:
+    traces = core.run_driver(driver, items)
+  finally:
+    gc.unfreeze()
   bad = copy.deepcopy(max(traces, key=len))
   if not corrupt(bad):
     raise core.Machinery("negative control: nothing to corrupt in a %s trace" % name)
@@ -414,56 +442,70 @@ def run(ctx):
       "OpenFlow bytes built by harness/rawbytes.py (struct only); segmentation of the byte stream varies per step",
   ]
 
-  # 1. the properties on the models
-  jobs = [("MCPortView", "MC_P3.cfg", PORT_ACTIONS), ("MCPortView", "MC_P2s.cfg", PORT_ACTIONS),
-          ("MCPortView", "MC_hist3.cfg", PORT_ACTIONS),
-          ("MCStatsAgg", "MC_S1_flow.cfg", STAT_ACTIONS), ("MCStatsAgg", "MC_S3_flow.cfg", STAT_ACTIONS)]
-  jobs += [("MCStatsAgg", "MC_S2_%s.cfg" % t, STAT_ACTIONS) for t in ("flow", "port")]
-  if not quick:
-    jobs += [("MCStatsAgg", "MC_S2_%s.cfg" % t, STAT_ACTIONS) for t in ("table", "queue")]
-    jobs += [("MCPortView", "MC_P3s.cfg", PORT_ACTIONS), ("MCPortView", "MC_P4.cfg", PORT_ACTIONS),
-             ("MCPortView", "MC_P2w.cfg", PORT_ACTIONS), ("MCPortView", "MC_hist5.cfg", PORT_ACTIONS),
-             ("MCPortView", "MC_hist4.cfg", PORT_ACTIONS),
-             ("MCStatsAgg", "MC_S3w_flow.cfg", STAT_ACTIONS)]
-    jobs += [("MCStatsAgg", "MC_S1_%s.cfg" % t, STAT_ACTIONS) for t in ("table", "port", "queue")]
-    jobs += [("MCStatsAgg", "MC_S3_%s.cfg" % t, STAT_ACTIONS) for t in ("table", "port", "queue")]
-  model_check(ctx, jobs)
-
-  # 2. spec -> code: transition cover of the exported state graphs
-  pjobs = [("MCPortView", "EX_edges_P3.cfg"), ("MCPortView", "EX_edges_P2s.cfg")]
-  sjobs = [("MCStatsAgg", "EX_S1_flow.cfg"), ("MCStatsAgg", "EX_S3_flow.cfg")]
-  sjobs += [("MCStatsAgg", "EX_S2_%s.cfg" % t) for t in ("flow", "port")]
-  if not quick:
-    sjobs += [("MCStatsAgg", "EX_S2_%s.cfg" % t) for t in ("table", "queue")]
-    pjobs += [("MCPortView", "EX_edges_P3s.cfg"), ("MCPortView", "EX_edges_P4.cfg")]
-    sjobs += [("MCStatsAgg", "EX_S1_%s.cfg" % t) for t in ("table", "port", "queue")]
-    sjobs += [("MCStatsAgg", "EX_S3_%s.cfg" % t) for t in ("table", "port", "queue")]
-  np_of = {"EX_edges_P3.cfg": 3, "EX_edges_P2s.cfg": 2, "EX_edges_P3s.cfg": 3, "EX_edges_P4.cfg": 4}
-  okp = oks = None
-  for cfg, walks, info in export_graphs(ctx, pjobs):
-    prep_ports(walks)
-    ctx.notes["graph " + cfg] = info
-    ok = replay_variants(ctx, PORTS, walks, dict(NP=np_of[cfg]), cfg, all_variants=not quick and np_of[cfg] < 4)
-    okp = okp or ok
-  for cfg, walks, info in export_graphs(ctx, sjobs):
-    ctx.notes["graph " + cfg] = info
-    ok = replay_variants(ctx, STATS, walks, dict(), cfg, all_variants=not quick)
-    if ok and any(st["exp"]["con"] and len(st["exp"]["con"][0]["e"]) >= 2 for st in ok[0]):
-      oks = oks or ok
-  if not ctx.violations:
-    if not negative_control_replay(ctx, PORTS, okp, corrupt_ports):
-      raise core.Machinery("negative control (ports) could not be constructed")
-    if not negative_control_replay(ctx, STATS, oks, corrupt_stats):
-      raise core.Machinery("negative control (stats) could not be constructed")
-    ctx.notes["negative_controls_replay"] = "corrupted expectations were reported (ports, stats)"
-
-  # 3. long random behaviours chosen by TLC
+  types = ("flow", "port") if quick else ("flow", "port", "table", "queue")
+  others = () if quick else ("table", "port", "queue")
   num = 80 if quick else 1500
-  simulate(ctx, "MCPortView", "SIM_P4.cfg", PORTS, dict(NP=4), num, 16, prep=prep_ports)
-  simulate(ctx, "MCStatsAgg", "SIM_S7.cfg", STATS, dict(), num, 30)
-  if not quick:
-    simulate(ctx, "MCPortView", "SIM_P4_deep.cfg", PORTS, dict(NP=4), 600, 34, prep=prep_ports, seed_off=1)
-    simulate(ctx, "MCStatsAgg", "SIM_S7_deep.cfg", STATS, dict(), 600, 80, seed_off=2)
+  jobs = Jobs(ctx, workers=6 if quick else 3)
+  try:
+    # all TLC work is queued now; EX_*.cfg = model check + graph export in one run, MC_*.cfg = model check only
+    mcs = [("MCPortView", "MC_hist3.cfg", PORT_ACTIONS)]
+    pgraphs = [("EX_edges_P3.cfg", 3), ("EX_edges_P2s.cfg", 2)]
+    sgraphs = ["EX_S1_flow.cfg", "EX_S3_flow.cfg"] + ["EX_S2_%s.cfg" % t for t in types]
+    if not quick:
+      mcs += [("MCPortView", "MC_P2w.cfg", PORT_ACTIONS), ("MCPortView", "MC_hist4.cfg", PORT_ACTIONS),
+              ("MCPortView", "MC_hist5.cfg", PORT_ACTIONS), ("MCStatsAgg", "MC_S3w_flow.cfg", STAT_ACTIONS)]
+      pgraphs += [("EX_edges_P3s.cfg", 3), ("EX_edges_P4.cfg", 4)]
+      sgraphs += ["EX_S1_%s.cfg" % t for t in others] + ["EX_S3_%s.cfg" % t for t in others]
+    for cfg, _ in pgraphs:
+      jobs.graph("MCPortView", cfg, PORT_ACTIONS)
+    for cfg in sgraphs:
+      jobs.graph("MCStatsAgg", cfg, STAT_ACTIONS)
+    jobs.sim("MCPortView", "SIM_P4.cfg", num, 16)
+    jobs.sim("MCStatsAgg", "SIM_S7.cfg", num, 30)
+    if not quick:
+      jobs.sim("MCPortView", "SIM_P4_deep.cfg", 600, 34, 1)
+      jobs.sim("MCStatsAgg", "SIM_S7_deep.cfg", 600, 80, 2)
+    for m, cfg, acts in mcs:
+      jobs.mc(m, cfg, acts)
+
+    # 1. the properties on the models  +  2. spec -> code: transition cover of the state graphs
+    okp = oks = None
+    for cfg, np_ in pgraphs:
+      r, walks, info = jobs.get(cfg)
+      ctx.add_model("PortView " + cfg, r)
+      prep_ports(walks)
+      ctx.notes["graph " + cfg] = info
+      ok = replay_variants(ctx, PORTS, walks, dict(NP=np_), cfg, all_variants=not quick and np_ < 4,
+                           pick=lambda b: any("cur" in st["exp"] for st in b))
+      okp = okp or ok
+    for cfg in sgraphs:
+      r, walks, info = jobs.get(cfg)
+      ctx.add_model("StatsAgg " + cfg, r)
+      ctx.notes["graph " + cfg] = info
+      ok = replay_variants(ctx, STATS, walks, dict(), cfg, all_variants=not quick, pick=lambda b: any(
+          st["exp"]["con"] and len(st["exp"]["con"][0]["e"]) >= 2 for st in b))
+      oks = oks or ok
+    if not ctx.violations:
+      if not negative_control_replay(ctx, PORTS, okp, corrupt_ports):
+        raise core.Machinery("negative control (ports) could not be constructed")
+      if not negative_control_replay(ctx, STATS, oks, corrupt_stats):
+        raise core.Machinery("negative control (stats) could not be constructed")
+      ctx.notes["negative_controls_replay"] = "corrupted expectations were reported (ports, stats)"
+
+    # 3. long random behaviours chosen by TLC
+    sims = [("SIM_P4.cfg", PORTS, dict(NP=4), prep_ports), ("SIM_S7.cfg", STATS, dict(), None)]
+    if not quick:
+      sims += [("SIM_P4_deep.cfg", PORTS, dict(NP=4), prep_ports), ("SIM_S7_deep.cfg", STATS, dict(), None)]
+    for cfg, adapter, params, prep in sims:
+      behs = jobs.get(cfg)
+      if prep:
+        prep(behs)
+      replay_variants(ctx, adapter, behs, params, cfg)
+
+    for m, cfg, acts in mcs:
+      ctx.add_model("%s %s" % (m[2:], cfg), jobs.get(cfg))
+  finally:
+    jobs.close()
 
   # 4. code -> spec: random drivers on the real Connection, traces validated by TLC
   ntr = 120 if quick else 2500
